@@ -21,7 +21,7 @@ by 1e9 is saturating and flows into a saturating add with the operation's timest
 Record.ttl_expiry (C10) and recovery stores the parsed value back unchanged; migration opens its source with TTL
 filtering off. Not decided: wall-clock behaviour, sweeper interleavings.
 """
-DECIDED = ['the TTL-only generation links its predecessor as value source (constructor pins shared with C13.fields)', "a TTL-only generation's borrowed disk read pins, loads and verifies against the generation that owns the extent (shared with C08.pin)", "(a) one strict expiry predicate", "(b) lazy check before any bytes are returned", "(c) re-validation under the guard; recovery order",
+DECIDED = ['a TTL in seconds is converted to nanoseconds only by saturating_mul(1e9), followed through crate-local helpers (value-based, not a site count)', 'the TTL-only generation links its predecessor as value source (constructor pins shared with C13.fields)', "a TTL-only generation's borrowed disk read pins, loads and verifies against the generation that owns the extent (shared with C08.pin)", "(a) one strict expiry predicate", "(b) lazy check before any bytes are returned", "(c) re-validation under the guard; recovery order",
            "(d) saturating expiry arithmetic", "(e) parsed expiry stored unchanged by recovery",
            'the lazy expiry test reads the clock inside resolve_record_value, never a caller-supplied now']
 NOT_DECIDED = ["(f) wall-clock behaviour / timing", "sweeper vs writer interleavings"]
